@@ -33,7 +33,43 @@ def family(seed, tier):
     g = scen.peg_window_chain(seed, name="c06-pegwin-dups", dups=True)
     f = scen.peg_window_chain(seed, name="c06-pegwin-first", dups=False)
     docs += [(g.s["name"], g.doc()), (f.s["name"], f.doc())]
+    r = reconsider_chain(seed)
+    docs.append((r.s["name"], r.doc()))
     return docs
+
+
+def reconsider_chain(seed, name="c06-reconsider"):
+    """'A conversion placed in holding is considered for execution exactly once': conversions that are rejected when they come up
+    (source not funded), whose author is funded afterwards, followed by every kind of block that is graded but records no rates
+    (one OPR record short, OPR and SPR both one short, no records at all) before the next rated block. Live era and legacy era."""
+    s = scen.Scn(name, sched=dict(scen.LIVE), seed=seed * 10 + 8, avg=4)
+    us = [s.key("A%d" % i) for i in range(1, 5)]
+    h = scen.live_preamble(s, us, fund_peg=600 * 10**8)
+    s.convert(h, "A2", "PEG", 300 * 10**8, "pUSD")
+    s.grade(h); h += 1
+    s.grade(h); h += 1
+    for rd, gap in enumerate(["few-opr", "few-both", "none", "few-opr"]):
+        # A1 / A3 hold no pUSD: rejected at the next rated block
+        s.convert(h, "A1", "pUSD", 10**8 + rd, "pXBT", track=False)
+        s.convert(h, "A3", "pUSD", 2 * 10**8 + rd, "pXBT", track=False)
+        s.grade(h); h += 1
+        s.grade(h)                                   # considered here (rejected: no funds)
+        s.transfer(h, "A2", "pUSD", [("A1", 5 * 10**8), ("A3", 5 * 10**8)])      # ... and funded right afterwards
+        h += 1
+        if gap == "few-opr":
+            s.grade(h, n=24, spr=False, pay=False)
+        elif gap == "few-both":
+            b = s.grade(h, n=24, pay=False)
+            if "spr" in b:
+                b["spr"]["n"] = 24
+        h += 1
+        s.grade(h); h += 1                           # a rated block after the gap: nothing of the above may be looked at again
+        # spend the funding again so that the next round starts unfunded
+        s.transfer(h, "A1", "pUSD", [("A2", 5 * 10**8)], track=False)
+        s.transfer(h, "A3", "pUSD", [("A2", 5 * 10**8)], track=False)
+        s.grade(h); h += 1
+    s.grade(h); s.tip(h)
+    return s
 
 
 def post(results):
